@@ -11,6 +11,7 @@ try:
     cache = os.path.join(d, 'cache')
     fresh = asn1tools.compile_files([f], 'uper')
     asn1tools.compile_files([f], 'uper', cache_dir=cache)          # populates the cache
+    import gc; gc.collect()          # as at interpreter exit: the connection closes, sqlite checkpoints the WAL into cache.db
     # the pickled value lives in cache.db or, until sqlite checkpoints, in cache.db-wal
     db, data = [(os.path.join(cache, n), open(os.path.join(cache, n), 'rb').read()) for n in sorted(os.listdir(cache))
                 if b'Tq' in open(os.path.join(cache, n), 'rb').read()][0]
@@ -18,7 +19,7 @@ try:
     snap = os.path.join(d, 'snap')
     shutil.copytree(cache, snap)
     wrong = 0
-    for pos in range(at, min(len(data), at + 400)):
+    for pos in range(at, min(len(data), at + 160)):
         shutil.rmtree(cache); shutil.copytree(snap, cache)
         with open(db, 'r+b') as fh:
             fh.seek(pos); b = fh.read(1); fh.seek(pos); fh.write(bytes([b[0] ^ 0x01]))
